@@ -407,13 +407,33 @@ func checkRelayLoops(c *Ctx, res *report.Result, rule string, files []string, mi
 		for _, bp := range relayBypasses(f, nil, nil) {
 			bad[bp.take.at] = bp
 		}
+		if failed, nSends := relayContinuesAfterFailedSend(f); nSends > 0 {
+			for i, call := range failed {
+				res.Viol(rule, fmt.Sprintf("%s: the loop ends when a Send fails (#%d)", shortFn(f), i+1), instrPos(c.Prog, call), "the error of this stream Send is not tested, or the next take is reachable from the side on which it is non-nil: the message is lost and the relay keeps writing into a broken stream")
+			}
+			if len(failed) == 0 {
+				res.Hold(rule, shortFn(f)+": the loop ends when a Send fails", fnPos(c.Prog, f), fmt.Sprintf("%d stream Send(s): from the non-nil side of each error the next take is unreachable", nSends))
+			}
+		}
+		early := map[ssa.Instruction]relayBypass{}
+		for _, bp := range relayEarlyReturns(f) {
+			early[bp.take.at] = bp
+		}
+		inverted := map[ssa.Instruction]bool{}
+		for _, t := range latchInverted(f) {
+			inverted[t.at] = true
+		}
 		for i, t := range takes {
 			n++
 			construct := fmt.Sprintf("%s: every message taken is passed on (take #%d: %s)", shortFn(f), i+1, shortTake(t.what))
 			if os.Getenv("S2S_DEBUG_RELAY") != "" {
 				fmt.Fprintln(os.Stderr, "relay:", construct, instrPos(c.Prog, t.at))
 			}
-			if bp, isBad := bad[t.at]; isBad {
+			if inverted[t.at] {
+				res.Viol(rule, construct, instrPos(c.Prog, t.at), "the take is made on the side on which IsShutdown() was just found true (the negation of the loop guard is gone): the worker relays nothing until it is told to stop")
+			} else if bp, isEarly := early[t.at]; isEarly {
+				res.Viol(rule, construct, instrPos(c.Prog, t.at), "after a successful take the loop can return without passing the message on and without a reason to end (no failed call, io.EOF, tripped latch or closed channel on the path "+flow.BlockPath(bp.path.Via)+"): the relay ends after its first message, silently")
+			} else if bp, isBad := bad[t.at]; isBad {
 				res.Viol(rule, construct, instrPos(c.Prog, t.at), "a message of the relayed kind can be consumed without being passed on and without ending the stream (path "+flow.BlockPath(bp.path.Via)+"): it is lost silently - the sender believes it delivered and nothing repeats it")
 			} else {
 				res.Hold(rule, construct, instrPos(c.Prog, t.at), "no path from the take to the next take avoids every Send / channel send / Deliver*ToShardOwner, other than over wrong-kind edges and zero-trip forwarding loops")
@@ -462,4 +482,159 @@ func xrelay(c *Ctx) (*report.Result, error) {
 		}
 	}
 	return res, nil
+}
+
+// endJustifiedEdge: the edge a->b is taken when the loop has a reason to end: the take (or a later call) failed,
+// the stream reported io.EOF, the latch is set, a closed channel was read, or a select chose a signal channel.
+func endJustifiedEdge(a, b *ssa.BasicBlock) bool {
+	errT := types.Universe.Lookup("error").Type()
+	for _, g := range flow.NormGuards(flow.EdgeGuards(a, b)) {
+		if iffBlockOf(g.Cond) != a {
+			continue
+		}
+		switch x := g.Cond.(type) {
+		case *ssa.BinOp:
+			if x.Op != token.EQL && x.Op != token.NEQ {
+				continue
+			}
+			if types.Identical(x.X.Type(), errT) || types.Identical(x.Y.Type(), errT) {
+				if flow.IsNilConst(x.Y) || flow.IsNilConst(x.X) {
+					if (x.Op == token.NEQ) == g.Side {
+						return true // err != nil
+					}
+				} else if (x.Op == token.EQL) == g.Side {
+					return true // err == sentinel
+				}
+			}
+			// select index == k on a signal channel
+			if ex, ok := x.X.(*ssa.Extract); ok && ex.Index == 0 {
+				if sel, isSel := ex.Tuple.(*ssa.Select); isSel {
+					if k, isK := flow.ConstInt(x.Y); isK && int(k) < len(sel.States) && (x.Op == token.EQL) == g.Side {
+						if ch, isCh := sel.States[k].Chan.Type().Underlying().(*types.Chan); isCh && isSignalElem(ch.Elem()) {
+							return true
+						}
+					}
+				}
+			}
+		case *ssa.Call:
+			if x.Call.IsInvoke() && x.Call.Method.Name() == "IsShutdown" && g.Side {
+				return true
+			}
+		case *ssa.Extract:
+			// comma-ok of a channel receive / select receive: closed channel
+			if !g.Side {
+				if u, isU := x.Tuple.(*ssa.UnOp); isU && u.Op == token.ARROW && x.Index == 1 {
+					return true
+				}
+				if _, isSel := x.Tuple.(*ssa.Select); isSel && x.Index == 1 {
+					return true
+				}
+			}
+		}
+	}
+	return false
+}
+
+// relayEarlyReturns: for every take of f on a cycle, a path from the take to a return that passes no forward and no
+// edge that justifies ending the loop: the loop gives up although it holds a message it could pass on.
+func relayEarlyReturns(f *ssa.Function) []relayBypass {
+	var out []relayBypass
+	for _, t := range relayLoopTakes(f) {
+		hdr := forwardingLoopHeaders(f, t.at)
+		th := func(ins ssa.Instruction) bool { return isRelayForward(ins) || hdr[ins.Block()] }
+		eo := func(a, b *ssa.BasicBlock) bool { return !wrongKindEdge(a, b) && !endJustifiedEdge(a, b) }
+		isRet := func(ins ssa.Instruction) bool {
+			_, ok := ins.(*ssa.Return)
+			return ok && ins.Block() != f.Recover
+		}
+		if r := flow.FindPath(t.start, isRet, th, eo); r.Found {
+			out = append(out, relayBypass{f, t, r})
+		}
+	}
+	return out
+}
+
+// latchInverted: a take of f that is executed on the side on which IsShutdown() was just found true (the loop guard's
+// negation was lost): the worker does nothing until it is told to stop.
+func latchInverted(f *ssa.Function) []relayTake {
+	var out []relayTake
+	for _, t := range relayLoopTakes(f) {
+		for _, b := range f.Blocks {
+			iff := lastIfOf(b)
+			if iff == nil {
+				continue
+			}
+			cond, side := iff.Cond, true
+			for {
+				if u, ok := cond.(*ssa.UnOp); ok && u.Op == token.NOT {
+					cond, side = u.X, !side
+					continue
+				}
+				break
+			}
+			call, ok := cond.(*ssa.Call)
+			if !ok || !call.Call.IsInvoke() || call.Call.Method.Name() != "IsShutdown" {
+				continue
+			}
+			setSucc := b.Succs[0]
+			if !side {
+				setSucc = b.Succs[1]
+			}
+			if len(setSucc.Preds) == 1 && setSucc.Dominates(t.start.Block) {
+				out = append(out, t)
+			}
+		}
+	}
+	return out
+}
+
+// relayContinuesAfterFailedSend: a stream Send of f whose error was found non-nil, from which the next take is still
+// reachable: the relay goes on after a message it could not pass on (that message is lost, the following ones are
+// sent into a broken stream).
+func relayContinuesAfterFailedSend(f *ssa.Function) (bad []ssa.Instruction, sends int) {
+	takes := relayLoopTakes(f)
+	if len(takes) == 0 {
+		return nil, 0
+	}
+	isTake := func(ins ssa.Instruction) bool {
+		for _, t := range takes {
+			if t.at == ins {
+				return true
+			}
+		}
+		return false
+	}
+	errT := types.Universe.Lookup("error").Type()
+	for _, b := range f.Blocks {
+		for _, ins := range b.Instrs {
+			call, ok := ins.(*ssa.Call)
+			if !ok || !call.Call.IsInvoke() || (call.Call.Method.Name() != "Send" && call.Call.Method.Name() != "SendMsg") || !types.Identical(call.Type(), errT) {
+				continue
+			}
+			sends++
+			tested := false
+			for _, tb := range f.Blocks {
+				iff := lastIfOf(tb)
+				if iff == nil {
+					continue
+				}
+				bo, isB := iff.Cond.(*ssa.BinOp)
+				if !isB || (bo.Op != token.EQL && bo.Op != token.NEQ) || !flow.IsNilConst(bo.Y) || flow.ResolveLoad(bo.X) != ssa.Value(call) && bo.X != ssa.Value(call) {
+					continue
+				}
+				tested = true
+				nonNil := tb.Succs[0]
+				if bo.Op == token.EQL {
+					nonNil = tb.Succs[1]
+				}
+				if r := flow.FindPath(flow.Point{Block: nonNil}, isTake, func(ssa.Instruction) bool { return false }, func(a, b2 *ssa.BasicBlock) bool { return !(a == tb && b2 != nonNil) }); r.Found && len(nonNil.Preds) == 1 {
+					bad = append(bad, call)
+				}
+			}
+			if !tested {
+				bad = append(bad, call)
+			}
+		}
+	}
+	return bad, sends
 }
